@@ -636,7 +636,17 @@ func ToEntry(n Node) (e *Entry) {
 			Errors: []error{err},
 		}
 	}
-	ms := RootNode(n).Modules
+	root := RootNode(n)
+	if root == nil {
+		// A node that stands in no module, such as the *Statement of an
+		// extension (Entry.Exts hands those out).
+		err := fmt.Errorf("ToEntry called on a %s node that belongs to no module", n.Kind())
+		return &Entry{
+			Node:   &ErrorNode{Error: err},
+			Errors: []error{err},
+		}
+	}
+	ms := root.Modules
 	if e := ms.getEntryCache(n); e != nil {
 		return e
 	}
